@@ -94,3 +94,9 @@ package transport
 //@ func (*rawConn).Flush
 //@   requires invRaw(r)
 //@   ensures nothing_buffered: nemitted() == 0 && result == nil
+
+// the transport as seen by the channel (a net.Conn plus Writev/Flush): calls are atomic points
+//@ property C01 C02 C05 C06 C07 C09 C10 C11 C18
+//@ assume iface BuffersWriter.Writev
+//@ assume iface Transport.Flush
+//@ assume iface Transport.RawTransport
